@@ -339,6 +339,7 @@ def run(ctx):
         n = ctx.scale(2500, 60000)
         ops = corpus + [gen_wr(ctx.rng) for _ in range(n)] + [gen_tw(ctx.rng) for _ in range(n // 3)] + \
             [gen_mask(ctx.rng) for _ in range(n // 3)]
+    ctx.log("generated", len(ops), "ops")
     impl = ctx.go_run(binary, TEST, ops)
     if ctx.last_go_crash:
         ctx.notes.append("go harness: " + str(ctx.last_go_crash)[-300:])
@@ -364,6 +365,7 @@ def run(ctx):
     by_case = {}
     for (i, kind), lo in zip(index, lean_out):
         by_case.setdefault(i, {})[kind] = lo
+    ctx.log("model and implementation ran")
     nviol = ncorr = 0
     for i, op in enumerate(ops):
         out = impl[i] if i < len(impl) else "<missing>"
@@ -402,7 +404,7 @@ def run(ctx):
                         okv.get("wire", "")[:200], okv.get("errs"), lo["model"][:260])
                 ctx.count("model-compared")
             if diff is None and "spec" in lo:
-                sp = lo["spec"].split(" S ")[-1]
+                sp = lo["spec"].split(" S ")[-1].split(" Q ")[0]
                 sev = kvs(sp).get("ev", "-")
                 if sev != okv.get("rd"):
                     diff = "Lean specification decodes the wire to %s, the peer read %s" % (sev[:200], okv.get("rd", "")[:200])
